@@ -835,6 +835,43 @@ func c01InlineVsNamed(w *core.W, idx *int64) {
 	}
 }
 
+// c01SharedUnion: two properties of one object refer to the same types in different
+// orders and through a union that contains one of them: the verdict for each property is
+// its own (whatever was resolved for an earlier property must not leak into a later one).
+func c01SharedUnion(w *core.W, idx *int64) {
+	types := map[string]string{"@m": `1 // {max: 3}`, "@w": `"x"`, "@u": `@m | @w`, "@n": `9 // {min: 5}`}
+	forms := []struct {
+		ann string
+		ok  func(v string) bool
+	}{
+		{`{or: ["@m", "@u"]}`, func(v string) bool { return v == "2" || v[0] == '"' }},
+		{`{or: ["@u", "@m"]}`, func(v string) bool { return v == "2" || v[0] == '"' }},
+		{`{type: "@u"}`, func(v string) bool { return v == "2" || v[0] == '"' }},
+		{`{type: "@m"}`, func(v string) bool { return v == "2" }},
+		{`{or: ["@n", "@u"]}`, func(v string) bool { return v != "4" }},
+		{`{or: ["@w", "@n"]}`, func(v string) bool { return v == "7" || v[0] == '"' }},
+	}
+	vals := []string{"2", "4", "7", `"y"`}
+	for _, f1 := range forms {
+		for _, f2 := range forms {
+			for _, v1 := range vals {
+				for _, v2 := range vals {
+					*idx++
+					if !w.Mine(*idx) {
+						continue
+					}
+					exp := reject
+					if f1.ok(v1) && f2.ok(v2) {
+						exp = accept
+					}
+					root := "{\n\t\"p\": " + v1 + ", // " + f1.ann + "\n\t\"q\": " + v2 + " // " + f2.ann + "\n}"
+					c01Judge(w, &project{Root: root, Types: types}, exp, "shared-union", "two-properties", nil)
+				}
+			}
+		}
+	}
+}
+
 func init() {
 	Register(&Prop{
 		ID:        "C01",
@@ -883,6 +920,7 @@ func init() {
 			})
 			c01Arrays(w, &i)
 			c01InlineVsNamed(w, &i)
+			c01SharedUnion(w, &i)
 			if w.Shard == 0 {
 				w.S.States += i
 				w.Count("typed_values", i)
